@@ -13,14 +13,16 @@ COMPONENTS = {
              'secrets (seeded)', 'time (virtual clock)']}
 ASSUMPTIONS = [
     'sim primitives copy queue.Queue / threading.Event semantics',
-    'pre-emption only at yield points (coop granularity); asyncio ready '
+    'pre-emption at yield points in every run; in about a quarter of the '
+    'runs that involve threaded code also between source lines of engineio '
+    'functions (sys.settrace; realisable under OS threads); asyncio ready '
     'queue kept FIFO',
     'ASGI server raises from websocket.send once the peer has gone (uvicorn '
     '>= 0.28; older versions dropped such sends silently)',
     'results hold for async_mode threading and asgi only']
 LEVEL_NOTE = ('Trusted: sim primitives (queue/event/thread/asyncio clock), '
               'fake simple_websocket and gateways, scripted client, the '
-              'reference models of the oracle. Pre-emption at yield points '
-              'only. async_mode threading and asgi only.')
+              'reference models of the oracle. Pre-emption at yield points, '
+              'plus between source lines in a share of the threaded runs. async_mode threading and asgi only.')
 TECHNIQUE = ('deterministic simulation with fault injection: seeded '
              'schedule/fault search + history oracle')
